@@ -940,6 +940,8 @@ func c15Run(t *testing.T, c *evid.Collector) {
 				// keys named like files the backends create for themselves
 				{{K: "put", B: "bk0", Key: "other", Body: same}, {K: "head", B: "bk0", Key: "other"}, {K: "put", B: "bk0", Key: ".modtime-resolution", Body: same, Meta: mt("first")}, {K: "head", B: "bk0", Key: ".modtime-resolution"},
 					{K: "reopen"}, {K: "head", B: "bk0", Key: "other"}, {K: "get", B: "bk0", Key: ".modtime-resolution"}, {K: "reopen"}},
+				{{K: "put", B: "bk0", Key: "other", Body: same}, {K: "put", B: "bk0", Key: ".modtime-resolution-notes.txt", Body: same, Meta: mt("first")}, {K: "put", B: "bk0", Key: ".gofakes3-modtime-resolution", Body: same}, {K: "put", B: "bk0", Key: ".upload-1", Body: same},
+					{K: "reopen"}, {K: "head", B: "bk0", Key: "other"}, {K: "get", B: "bk0", Key: ".modtime-resolution-notes.txt"}, {K: "get", B: "bk0", Key: ".gofakes3-modtime-resolution"}, {K: "list", B: "bk0"}, {K: "reopen"}},
 				{{K: "put", B: "bk0", Key: "_meta", Body: same, Meta: mt("first")}, {K: "put", B: "bk0", Key: "metadata", Body: same}, {K: "put", B: "bk0", Key: "buckets", Body: same}, {K: "put", B: "bk0", Key: "bk0", Body: same},
 					{K: "reopen"}, {K: "list", B: "bk0"}, {K: "del", B: "bk0", Key: "metadata"}, {K: "reopen"}},
 			} {
